@@ -96,10 +96,11 @@ class C04(Prop):
                   "any mix of operations => the successful writes form a linearisation (each write = its operation applied to the value left by the "
                   "previous write, the cell is the fold of the log, thread u's log entries are exactly its completed calls in program order, a set "
                   "leaves exactly its value, at the end the log is a merge of all programs); record_many(v,n) delivers v exactly n times and record "
-                  "once through every route incl. the Arc<T> forwarding impl; no-op handles perform no access; no Panic outcome. The model is tied to "
+                  "once through every route incl. the Arc<T> forwarding impl; no-op handles perform no access; the model has no Panic outcome (panics of the real code are caught by the driver and fail the case, per run). The model is tied to "
                   "/repo by running the real trait impls and handles (from_arc, clone, From<Arc>, Arc<Arc>, noop) and the model on the same call "
-                  "sequences each run, by checking IntoF64 against an independent computation, and by multi-threaded stress runs whose final values "
-                  "must equal the schedule-independent closed forms the theorems give.")
+                  "sequences each run, by checking IntoF64 against an independent computation, by free-running multi-threaded stress runs whose final values "
+                  "must equal the schedule-independent closed forms the theorems give, and by barrier-released rounds whose per-round end values must lie "
+                  "in the set of linearisable outcomes (computed by the python oracle, not in Coq).")
     level_note = ("No yield point can be placed inside std's fetch_update / fetch_add, so there is no schedule replay: the concurrent theorems "
                   "rest on the assumption that AtomicU64's fetch_add, fetch_max, swap, load and compare_exchange_weak are single atomic accesses "
                   "(sequentially consistent interleaving; Release/AcqRel/Relaxed annotations not modelled) and that fetch_update is the documented "
